@@ -1,6 +1,10 @@
 # C15 - annotated types give a variable exactly its declared and inherited members (DESIGN 5, C15)
 #        + the class-traversal part of C01 (cyclic aliases / inheritance never hang or crash)
 #
+# The deciding model is the REPAIRED class lookup (fix 53b8e25: the best declaration of the referring file
+# first, then all the others; Model/Classes.v c15_split_fixed = true) and the repaired alias resolution: no known
+# class is left, every deviation from the closure is a violation.
+#
 # One leg, c15.members: generated class graphs, rendered by the Go leg to annotation comments in the Lua files of
 # a temporary workspace and queried through the REAL language server (child process per ~150 cases; a stack
 # overflow kills only the child).  The model side (extracted from coq/Model/Classes.v) receives the graph in the
@@ -230,9 +234,11 @@ def type_names(ty):
 
 
 def order_safe(defs, f0):
-    """The order of the workspace list of a name declared in several FILES is a Go map iteration order.  The set of
-    members cannot depend on it when no such name is referred to from a file that declares it (then every lookup of
-    it sees all declarations: the shadow_free situation of C15_members_eq_closure, order-free by that theorem)."""
+    """The order of the workspace list of a name declared in several FILES is a Go map iteration order.  (Fallback of
+    stable_filter for a missing / stale driver only.)  Conservative syntactic condition from round 1: no such name is
+    referred to from a file that declares it.  Since the repair of the split-class lookup the member SETS are order
+    free for every workspace (C15_members_full_proved); what can still depend on the order is the first alias
+    declaration of a name (element types) - see order_safe_case."""
     files_of = {}
     for d in defs:
         files_of.setdefault(d["name"], set()).add(d["file"])
@@ -331,8 +337,8 @@ def shapes():
         n(T + 1) + "|" + n(T), f0=2)
     add([C(T, [ANY, T + 2], [F]), C(T + 2, [], [F + 2])], n(T))
     add([C(T, [ANY, T + 2], [F], file=0), C(T + 2, [], [F + 2], file=0)], n(T), f0=1)
-    # one half of a split class reached from its own file first (single best declaration), the whole class later
-    # from another file: the already visited half is skipped, the other half still visited
+    # one half of a split class reached from its own file first (best declaration first, then the other half), the
+    # whole class later from another file: everything already visited is skipped
     add([C(T + 1, [T], [F + 2], file=0), C(T, [], [F], file=0), C(T, [], [F + 1], file=1), C(T + 2, [T], [F + 3], file=2)],
         n(T + 1) + "|" + n(T + 2), f0=2)
     add([C(T + 1, [T], [F + 2], file=0), C(T, [], [F], file=0), C(T, [], [F + 1], file=1), C(T + 2, [T], [F + 3], file=2)],
@@ -348,11 +354,12 @@ def shapes():
     add([C(T, [], [F], file=0), C(T, [], [F + 1], file=1)], n(T), f0=2)
     add([C(T, [], [F], file=0), C(T, [], [F + 1], file=1)], n(T), f0=0)
     add([C(T, [T + 1], [F], file=0), C(T + 1, [], [F + 1], file=1), C(T + 1, [], [F + 2], file=2)], n(T), f0=3)
-    # same-file shadowing + name-visited map: union order changes the answer (C15_union_order_refuted)
+    # same-file shadowing + name-visited map: union order changed the answer before fix 53b8e25
+    # (C15_union_order_repaired; in general C15_union_order_free)
     sh = [C(T, [], [F], file=0), A(T + 1, n(T), file=0), C(T, [], [F + 1], file=1), A(T + 2, n(T), file=2)]
     add(sh, n(T + 1) + "|" + n(T + 2), f0=2)
     add(sh, n(T + 2) + "|" + n(T + 1), f0=2)
-    # two declarations of one class in one file: the one "best" by line wins inside the file
+    # two declarations of one class in one file: the one "best" by line comes first, the other one follows
     add([C(T, [], [F]), C(T, [], [F + 1])], n(T))
     add([C(T, [], [F]), C(T, [], [F + 1])], n(T), slot=0)
     add([C(T, [], [F]), C(T, [], [F + 1])], n(T), slot=1)
@@ -386,7 +393,8 @@ def gen_members(rng, tier):
         f0, nf, slot, ty = start_of(rng, defs, nfiles, pool, refpool)
         univ = fpool + [fpool[-1] + 1]
         r = rng.random()
-        q = "MIKD" if r < 0.75 else ("MIKDP" if r < 0.9 else rng.choice(["M", "MI", "MK", "MD", "P"]))
+        q = "MIKD" if r < 0.5 else ("MIKDF" if r < 0.75 else ("MIKDP" if r < 0.9 else
+                                                              rng.choice(["M", "MI", "MK", "MD", "P", "F", "MDPF"])))
         out.append(layout(defs, nf, f0, slot, q, ty, univ))
         if has_alias_cycle_risk(defs) and rng.random() < 0.5:
             # the same workspace asked for plain members only: must answer even when indexing would overflow
@@ -428,7 +436,7 @@ def shrink_members(case):
                 ds = [dict(x) for x in defs]
                 ds[i]["ty"] = "|".join(parts[:j] + parts[j + 1:])
                 yield emit(ds)
-    for qq in ("M", "I", "K", "D", "P"):                        # fewer queries
+    for qq in ("M", "I", "K", "D", "P", "F"):                   # fewer queries
         if qq in q and len(q) > 1:
             yield emit(defs, qq=q.replace(qq, ""))
     if len(univ) > 1:
@@ -467,15 +475,16 @@ LEGS = [
 
 TRUSTED = vlib.TRUSTED_COMMON + [
     "modelled, tied by correspondence (real server over channel.Direct, child process): getAllNormalAnnotateClass / "
-    "getInLineAllNormalAnnotateClass / getClassTypeInfoList, GetBestCreateTypeInfo, rebuidCreateTypeMap, "
+    "getInLineAllNormalAnnotateClass / getClassTypeInfoList (repaired lookup), GetBestCreateTypeInfo, rebuidCreateTypeMap, "
     "GetAllArrayType / GetAllTableType / GetAllTableKeyType, symbolHasSubKey, getClassListSubMem, "
     "convertClassInfoToCompleteVecs (plain fields), getForCycleAnnotateType",
     "the Go leg renders the serialised class graph to annotation text; the annotation parser itself is C16's model "
     "(here exercised as part of the implementation only)",
     "relating a variable to the annotation fragment on the preceding line (annotate_info.go:811-858, "
     "check_lsp_annotate.go:1336-1445): by correspondence only (every case goes through it)",
-    "order of the workspace map across files is a Go map iteration order: observables are sets, definition targets "
-    "are compared exactly only for field names declared once in the workspace",
+    "order of the workspace map across files is a Go map iteration order (fixes/C09-class-order.diff, not applied): "
+    "observables are sets, definition targets and the member step `d.<k>.` are compared exactly only for field names "
+    "declared once in the workspace, and only cases whose model answer is the same under every order of the files run",
 ]
 
 ASSUMPTIONS = [
